@@ -31,7 +31,9 @@ T2 = "_ipp._tcp.local."
 def generate(rng, tier):
     sv = gen_services(rng, 2, types=[T1], hosts=["hostv.local."], prefix="V", custom_ttl=False)
     sh = gen_services(rng, 1, types=[rng.choice([T1, T2])], hosts=["hosth.local."], prefix="H", custom_ttl=False)
-    ops = [{"t": 0.0, "op": "host", "h": "V", "ip": "10.0.0.1", "layout": rng.choice(["default", "multi"])},
+    v6 = rng.random() < 0.3  # dual-stack instance: datagrams are read from an AF_INET6 socket (4-tuple source addresses)
+    ops = [{"t": 0.0, "op": "host", "h": "V", "ip": "10.0.0.1", "layout": "multi" if v6 else rng.choice(["default", "multi"]),
+            "ip6": "fe80::1" if v6 else None},
            {"t": 0.0, "op": "host", "h": "H", "ip": "10.0.0.2", "layout": rng.choice(["default", "multi"])},
            {"t": 0.0, "op": "peer", "p": "X", "ip": "10.0.0.9", "ports": [5353, 5354]}]
     qu_free = rng.random() < 0.5
